@@ -86,6 +86,23 @@ CLAIMS = {
                 'covered by the reference oracle only - counted in the evidence); bind_args theorem assumes NoDup parameter names (duplicates: later wins, tested only). No axioms.',
         'ref': 'DESIGN.md section 5 C04',
     },
+    'C01': {
+        'text': 'Theorems in Coq on the REAL statement type and the REAL interpreter model: (1) fuel monotonicity of eval/call/exec (mutual induction), so runs with '
+                'different fuels compose; (2) forward SIMULATION for one scope: for statement trees over sequencing, assignment, expression statement, return, if/elif/'
+                'else chains (with the endif retargeting of the last conditional jump), while as it is lowered (header test, loop label, footer test), break and continue, '
+                'whenever the structured big-step reading (loop condition re-tested before every iteration, break/continue bound to the innermost loop, first truthy '
+                'branch of a chain) ends - normally, by return or by a runtime error - the interpreter run on the lowered code ends with the same result, the same locals '
+                'and (up to the statement counter) the same world, for any library, any call depth inside expressions, unbounded nesting; all compiled labels are unique; '
+                '(3) an executable structured interpreter proved sound for the big-step semantics. Known finding F7 (continue inside while skips the re-test; pinned by '
+                'the repository\'s own test) is the hypothesis `guard` of (2) and a machine-checked witness (C01_F7_witness). Tie: on every run the check decides inside Coq '
+                'that parse_script(printed text) = compile(tree) and that the structured interpreter agrees with the implementation, on generated trees of the fragment; '
+                'the whole language incl. for, functions inside blocks and every nesting shape to depth 3 is decided on the implementation against an independent '
+                'structured reference interpreter (result, log, final globals), and the Coq parser+interpreter model is run against the implementation.',
+        'note': 'PARTIAL (named in Props/C01.v): for-loops are outside the proved fragment; the simulation is per scope; premises: unlimited budget, library monotone in '
+                'callback termination, expression evaluation does not read the statement counter (Ev_blind). compile = parser lowering is validated per case inside Coq, '
+                'not proved for all trees. Trusted: Coq kernel/vm_compute, transliterations validated by the correspondence, harness reference interpreter. No axioms.',
+        'ref': 'DESIGN.md section 5 C01',
+    },
 }
 
 PENDING = 'check under construction in this session (model and proofs in progress; see DESIGN.md section 5) - not claimed until it passes on the unchanged tree'
